@@ -148,6 +148,7 @@ struct Mother {
     std::shared_ptr<axis_cell> c; std::string shape, axis, regime; double lmin = 0; int axis_fam = 0, regime_id = 0;
     // captured right before the division
     Snap snap0; orc::Geo geo; double L = 0; double tvol = 0; double vplane_min = -1;
+    bool tilted = false;
     int section_loops = -1;   // number of closed contours along which the plane (own centroid, configured axis) crosses the surface; -1 unknown
 };
 
@@ -182,7 +183,11 @@ static void set_axis(Mother& M, Rng& g) {
     axis_cell& c = *M.c; orc::Geo g0 = geo_of(c);
     if (M.axis_fam == AX_LONGEST) { c.use_default_axis_ = true; return; }
     if (M.axis_fam == AX_ACROSS) return;   // set by the caller together with the rotation of the bent body
-    if (M.axis_fam >= AX_PX && M.axis_fam <= AX_MZ) { c.axis_ = coord_axis(M.axis_fam); return; }
+    if (M.axis_fam >= AX_PX && M.axis_fam <= AX_MZ) { c.axis_ = coord_axis(M.axis_fam);
+        // a third of these: almost, but not exactly, along the coordinate axis (tilted by 1e-9 .. 1e-2 rad): no shortcut for aligned axes may apply
+        if (g.coin(0.35)) { const double th = g.logu(1e-9, 1e-2), ph = g.uni(0, 2 * M_PI); vec3 a0 = c.axis_; vec3 e1 = std::fabs(a0.dx()) > 0.5 ? vec3(0, 1, 0) : vec3(1, 0, 0); vec3 e2 = a0.cross(e1);
+            c.axis_ = (a0 * std::cos(th) + (e1 * std::cos(ph) + e2 * std::sin(ph)) * std::sin(th)).normalize(); M.tilted = true; }
+        return; }
     if (M.axis_fam == AX_VPLANE) { c.axis_ = coord_axis(AX_PX + g.range(0, 5)); return; }
     V3 u; do { u = V3(g.normal(), g.normal(), g.normal()); } while (u.norm() < 1e-3L); u = u / u.norm();
     if (M.axis_fam == AX_NEARV) {   // plane through the centroid and (up to rounding) through one mesh vertex
@@ -352,6 +357,7 @@ static std::string run_direct(const Args& a, long i) {
     if (!why.empty()) { cs.v = "skip"; cs.msg = why; o.bin("skipped_generator_reject"); return o.str(); }
     if (M.axis_fam == AX_ACROSS) M.c->axis_ = arms_axis;
     set_axis(M, g); capture(M); measure_vplane(M); measure_section(M);
+    if (M.tilted) o.bin("axis_tilted_off_a_coordinate_axis");
     cs.obs.i("section_contours", M.section_loops).i("mother_faces", M.snap0.nf).d("vertex_plane_dist_over_L", M.vplane_min);
     { vec3 a0 = M.c->use_default_axis_ ? vec3(0, 0, 0) : M.c->axis_;   // preamble on stderr: a crash / hang line carries the exact input description
       fprintf(stderr, "C09CASE workload=direct shape=%s(%s) axis=%s(%.17g,%.17g,%.17g) regime=%s lmin=%.17g x=%.4g faces=%ld scale=%.6g vertex_plane_dist_over_L=%.3g\n", M.shape.c_str(), m.name.c_str(), M.axis.c_str(), a0.dx(), a0.dy(), a0.dz(), M.regime.c_str(), M.lmin, M.lmin / reff_of(m), M.snap0.nf, scale, M.vplane_min); fflush(stderr); }
